@@ -5,6 +5,7 @@ go 1.23
 require (
 	github.com/golang/protobuf v1.4.3
 	github.com/hashicorp/memberlist v0.2.2
+	github.com/vx-labs/cluster v1.7.10
 	github.com/vx-labs/commitlog v1.2.4
 	github.com/vx-labs/mqtt-protocol v5.1.1+incompatible
 	github.com/vx-labs/wasp/v4 v4.0.0
@@ -40,7 +41,6 @@ require (
 	github.com/prometheus/procfs v0.2.0 // indirect
 	github.com/sean-/seed v0.0.0-20170313163322-e2103e2c3529 // indirect
 	github.com/tysontate/gommap v0.0.0-20190103205956-899e1273fb5c // indirect
-	github.com/vx-labs/cluster v1.7.10 // indirect
 	github.com/zond/gotomic v0.0.0-20160912093511-c442ca1e4aa6 // indirect
 	go.etcd.io/etcd v0.0.0-20200716221620-18dfb9cca345 // indirect
 	go.uber.org/atomic v1.6.0 // indirect
